@@ -176,8 +176,8 @@ func c10One(o *out, p c10pred, bounds []*big.Int, tag string) {
 		b.atom(tr.MinTimeNano()); b.sp(); b.atom(tr.MaxTimeNano()); b.close()
 		resp = b.String()
 	}
-	req, _ := withSemOracles("(18 (1 "+bigNanos(c10Now).String()+") "+exprSexp(cond)+")", cond)
-	o.addCaseVM(req, resp, "ConditionExpr "+p.text, false)
+	req, uses := withSemOracles("(18 (1 "+bigNanos(c10Now).String()+") "+exprSexp(cond)+")", cond)
+	o.addCaseVM(req, resp, "ConditionExpr "+p.text, !uses && asciiNoFloat(p.text))
 	if p.holds == nil {
 		return
 	}
